@@ -40,6 +40,106 @@ type Free struct {
 	Rounds int   `json:"rounds"` // acquire/release rounds per goroutine
 	Procs  int   `json:"procs"`  // GOMAXPROCS of the run
 	Mix    int   `json:"mix"`    // 0: Lock/TryLock/LockWithCtx mixed, 1: Lock only, 2: TryLock only, 3: LockWithCtx (some with short deadlines)
+	// LeaseMs > 0: the "renewal race" variant. The providers get this (very short) lease, Locker i works on
+	// lock name i % Keys, and every holder keeps the lock until it sees its renewal call enter the storage
+	// (a pass-through wrapper publishes a counter per key, nothing is parked or faulted), then calls Unlock
+	// after a tiny random spin: Unlock races the background refresher on the un-gated store in every round.
+	// With such leases a lease may lapse under load, which is outside C01's premise: overlaps are NOT judged.
+	// Judged is only what no load can cause: after every holder has unlocked and two lease periods of quiet
+	// the record of every lock name is gone, TryLock+Unlock work on every Locker, nothing panicked.
+	LeaseMs int `json:"lease_ms,omitempty"`
+	Keys    int `json:"keys,omitempty"`
+	DurMs   int `json:"dur_ms,omitempty"` // race variant: the goroutines stop starting rounds after this long
+}
+
+// sigStore passes every call through. The renewal call of the CURRENT tenure of a lock name (it presents
+// the version the last successful Create of that name returned, or what a renewal made of it) tells the
+// holder - who is blocked waiting for exactly this - that it is on its way, and is then a little slow: it
+// waits for the holder's "I am calling Unlock now", at most leaseTTL/2 (the holder is woken through a channel, which
+// takes microseconds on an idle machine and milliseconds on a crowded one; a lease that lapses because of that is of no
+// consequence for what this stream judges), plus 0..800 ns
+// of jitter. Nothing is faulted, reordered or held for longer than a slow network would; the point is that
+// Unlock's Delete and the renewal reach the store within nanoseconds of each other in most rounds instead
+// of once in ten thousand. Renewals of finished tenures and renewals nobody waits for pass straight through.
+type sigStore struct {
+	kvs.Storage
+	mu   sync.Mutex
+	keys map[string]*sigKey
+
+	wait          time.Duration
+	calls, missed int64 // renewal calls of a current tenure with a holder waiting / of them not met in time
+}
+
+type sigKey struct {
+	mu      sync.Mutex
+	cur     string        // version the current tenure's next renewal will present
+	note    chan struct{} // "the renewal is on its way"
+	waiting int32         // a holder is blocked on note
+	ack     int64         // bumped by the holder when the note has woken it
+	goFlag  int64         // set to that value by the renewal call: "now"
+}
+
+func (s *sigStore) key(key string) *sigKey {
+	s.mu.Lock()
+	defer s.mu.Unlock()
+	p := s.keys[key]
+	if p == nil {
+		p = &sigKey{note: make(chan struct{}, 1)}
+		s.keys[key] = p
+	}
+	return p
+}
+
+func (s *sigStore) Create(ctx context.Context, r kvs.Record) (string, error) {
+	v, err := s.Storage.Create(ctx, r)
+	if err == nil {
+		k := s.key(r.Key)
+		k.mu.Lock()
+		k.cur = v
+		k.mu.Unlock()
+	}
+	return v, err
+}
+
+func (s *sigStore) CasByVersion(ctx context.Context, r kvs.Record) (kvs.Record, error) {
+	k := s.key(r.Key)
+	k.mu.Lock()
+	mine := k.cur == r.Version
+	k.mu.Unlock()
+	if mine && atomic.LoadInt32(&k.waiting) == 1 {
+		a0 := atomic.LoadInt64(&k.ack)
+		select {
+		case k.note <- struct{}{}:
+		default:
+		}
+		atomic.AddInt64(&s.calls, 1)
+		t0 := time.Now()
+		// yield while waiting: the holder that the note has just made runnable may sit in this very
+		// processor's run queue
+		for i := 0; atomic.LoadInt64(&k.ack) == a0; i++ {
+			runtime.Gosched()
+			if i%8 == 7 && time.Since(t0) > s.wait {
+				atomic.AddInt64(&s.missed, 1)
+				break
+			}
+		}
+		// the holder is awake and spins on this flag: from here both run side by side
+		atomic.StoreInt64(&k.goFlag, a0+1)
+		x := uint64(a0)*0x9E3779B97F4A7C15 + uint64(t0.UnixNano())
+		x ^= x >> 29
+		for i := x % 400; i > 0; i-- { // ~2 ns each
+			_ = atomic.LoadInt64(&k.ack)
+		}
+	}
+	res, err := s.Storage.CasByVersion(ctx, r)
+	if mine && err == nil {
+		k.mu.Lock()
+		if k.cur == r.Version {
+			k.cur = res.Version
+		}
+		k.mu.Unlock()
+	}
+	return res, err
 }
 
 const (
@@ -48,15 +148,16 @@ const (
 )
 
 type freeSummary struct {
-	acq, rel, maxIn  int64
-	tryFail, ctxErr  int64
-	panics, otherErr int64
-	firstOverlap     string
-	firstPanic       string
-	residue          []string
-	hung             bool
-	setup            string
-	dur              time.Duration
+	acq, rel, maxIn     int64
+	tryFail, ctxErr     int64
+	panics, otherErr    int64
+	firstOverlap        string
+	firstPanic          string
+	residue             []string
+	hung                bool
+	casCalls, casMissed int64
+	setup               string
+	dur                 time.Duration
 }
 
 func runFreeOnce(c *Case) *freeSummary {
@@ -82,13 +183,39 @@ func runFreeOnce(c *Case) *freeSummary {
 			np = p + 1
 		}
 	}
+	race := f.LeaseMs > 0
+	ttl := time.Duration(f.LeaseMs) * time.Millisecond
+	keys := f.Keys
+	if keys < 1 {
+		keys = 1
+	}
+	var sig *sigStore
 	var provs []dist.LockProvider
 	for i := 0; i < np; i++ {
-		provs = append(provs, dist.NewKvsLockProvider(inner, path))
+		var p dist.LockProvider
+		if race {
+			if sig == nil {
+				sig = &sigStore{Storage: inner, keys: map[string]*sigKey{}, wait: ttl / 2}
+			}
+			p = dist.NewKvsLockProvider(sig, path)
+			if !dist.VerifSetLeaseTTL(p, ttl) {
+				sum.setup = "VerifSetLeaseTTL: not a kvs lock provider"
+				return sum
+			}
+		} else {
+			p = dist.NewKvsLockProvider(inner, path)
+		}
+		provs = append(provs, p)
 	}
 	var lockers []gsync.Locker
-	for _, p := range c.Prov {
-		lockers = append(lockers, provs[p].NewLocker("L"))
+	var names []string
+	for i, p := range c.Prov {
+		name := "L"
+		if race {
+			name = fmt.Sprintf("L%d", i%keys)
+		}
+		names = append(names, name)
+		lockers = append(lockers, provs[p].NewLocker(name))
 	}
 	old := runtime.GOMAXPROCS(0)
 	if f.Procs > 0 {
@@ -108,11 +235,22 @@ func runFreeOnce(c *Case) *freeSummary {
 			defer wg.Done()
 			r := prng.New(c.SSeed, "lockdrv-free", uint64(gi))
 			L := lockers[li%len(lockers)]
+			var sk *sigKey
+			if race {
+				sk = sig.key(path + names[li%len(lockers)])
+			}
 			<-start
 			for k := 0; k < f.Rounds; k++ {
+				if race && time.Since(t0) > time.Duration(f.DurMs)*time.Millisecond {
+					break
+				}
 				kind := f.Mix
 				if kind == 0 {
 					kind = 1 + r.Intn(3)
+				}
+				if race {
+					// no blocking Lock: a record that is never released must not hang the run, it is found at the end
+					kind = 2 + r.Intn(2)
 				}
 				got := false
 				func() {
@@ -139,6 +277,8 @@ func runFreeOnce(c *Case) *freeSummary {
 						ctx, cancel := context.Background(), context.CancelFunc(func() {})
 						x := r.Intn(10)
 						switch {
+						case race:
+							ctx, cancel = context.WithTimeout(ctx, 3*ttl)
 						case x == 0:
 							ctx, cancel = context.WithCancel(ctx)
 							cancel()
@@ -160,7 +300,9 @@ func runFreeOnce(c *Case) *freeSummary {
 					}
 				}()
 				if !got {
-					if r.Chance(1, 4) {
+					if race {
+						time.Sleep(time.Duration(50+r.Intn(200)) * time.Microsecond)
+					} else if r.Chance(1, 4) {
 						runtime.Gosched()
 					}
 					continue
@@ -181,12 +323,37 @@ func runFreeOnce(c *Case) *freeSummary {
 					}
 					mu.Unlock()
 				}
-				switch r.Intn(4) {
-				case 0:
-					runtime.Gosched()
-				case 1:
-					for i := 0; i < 50+r.Intn(300); i++ {
+				if race {
+					// hold until the renewal of this lock name is seen entering the storage (at leaseTTL/2), then
+					// Unlock at once / a few hundred ns later: the Delete races the refresh
+					// hold until the renewal of this tenure is on its way (at leaseTTL/2; blocked, not spinning: dozens
+					// of processes run such cases side by side), then Unlock at once / a few hundred ns later
+					select {
+					case <-sk.note: // a note left over from a renewal nobody waited for
+					default:
+					}
+					atomic.StoreInt32(&sk.waiting, 1)
+					tm := time.NewTimer(ttl)
+					select {
+					case <-sk.note:
+					case <-tm.C:
+					}
+					tm.Stop()
+					atomic.StoreInt32(&sk.waiting, 0)
+					a1 := atomic.AddInt64(&sk.ack, 1)
+					for i := 0; atomic.LoadInt64(&sk.goFlag) != a1 && i < 20000; i++ { // <= ~50 us
+					}
+					for i := r.Intn(400); i > 0; i-- {
 						_ = atomic.LoadInt64(&inCS)
+					}
+				} else {
+					switch r.Intn(4) {
+					case 0:
+						runtime.Gosched()
+					case 1:
+						for i := 0; i < 50+r.Intn(300); i++ {
+							_ = atomic.LoadInt64(&inCS)
+						}
 					}
 				}
 				atomic.AddInt64(&inCS, -1)
@@ -216,15 +383,34 @@ func runFreeOnce(c *Case) *freeSummary {
 		sum.hung = true
 	}
 	sum.dur = time.Since(t0)
+	if sig != nil {
+		sum.casCalls, sum.casMissed = atomic.LoadInt64(&sig.calls), atomic.LoadInt64(&sig.missed)
+	}
 	sum.acq, sum.rel, sum.maxIn = atomic.LoadInt64(&acq), atomic.LoadInt64(&rel), atomic.LoadInt64(&maxIn)
 	sum.tryFail, sum.ctxErr = atomic.LoadInt64(&tryFail), atomic.LoadInt64(&ctxErr)
 	sum.panics, sum.otherErr = atomic.LoadInt64(&panics), atomic.LoadInt64(&otherErr)
 	if !sum.hung {
 		// everybody has unlocked: the record must be gone and every Locker acquirable again
-		key := path + "L"
-		if _, err := inner.Get(context.Background(), key); err == nil {
-			sum.residue = append(sum.residue, "every holder has unlocked but the lock record is still in the storage")
-			inner.Delete(context.Background(), key)
+		if race {
+			// two lease periods of quiet: a record that nobody refreshes would have run out by now, so a record
+			// found after that is being kept alive by a renewal chain that belongs to no holder
+			time.Sleep(2*ttl + 5*time.Millisecond)
+		}
+		seen := map[string]bool{}
+		for _, name := range names {
+			key := path + name
+			if seen[key] {
+				continue
+			}
+			seen[key] = true
+			if r, err := inner.Get(context.Background(), key); err == nil {
+				what := "every holder has unlocked but the lock record is still in the storage"
+				if race {
+					what = fmt.Sprintf("every holder has unlocked and two lease periods (%v each) have passed, but the record of lock %q is still in the storage (version %s): it is being refreshed although nobody holds the lock", ttl, name, r.Version)
+				}
+				sum.residue = append(sum.residue, what)
+				inner.Delete(context.Background(), key)
+			}
 		}
 		for i, l := range lockers {
 			ok, panicked := false, false
@@ -291,7 +477,11 @@ func RunFree(c *Case) *Result {
 		res.Direct = append(res.Direct, Direct{What: "stuck", Detail: fmt.Sprintf("free-running goroutines had not finished their rounds after %v, three times in a row (a Lock that never returns although every holder unlocks)", freeHangLimit)})
 		res.Complete = false
 	}
-	if sum.maxIn > 1 {
+	race := c.Free.LeaseMs > 0
+	if race && sum.panics > 0 {
+		res.Direct = append(res.Direct, Direct{What: "panic in a lock call", Detail: fmt.Sprintf("free-running renewal-race stream: %d panic(s); first: %s", sum.panics, sum.firstPanic)})
+	}
+	if sum.maxIn > 1 && !race {
 		res.Direct = append(res.Direct, Direct{What: "two holders at the same time", Detail: fmt.Sprintf("free-running stream: %s; largest number of simultaneous holders %d in %d acquisitions (run took %v, lease 10 s)", sum.firstOverlap, sum.maxIn, sum.acq, sum.dur.Round(time.Microsecond))})
 	}
 	if sum.acq != sum.rel && !sum.hung {
@@ -313,6 +503,15 @@ func RunFree(c *Case) *Result {
 	var prov []string
 	for _, p := range c.Prov {
 		prov = append(prov, fmt.Sprint(p))
+	}
+	if race {
+		res.Counts["free:renewal-race-cases"]++
+		res.Counts["free:renewal-race-rounds"] += int(sum.acq)
+		res.Counts["free:renewal-race-renewals"] += int(sum.casCalls)
+		res.Counts["free:renewal-race-renewals-not-met-by-unlock"] += int(sum.casMissed)
+		res.Counts[fmt.Sprintf("free:renewal-race-overlaps-not-judged:%t", sum.maxIn > 1)]++
+		res.Coq = fmt.Sprintf("mkCase @ID@%%N %d [%s] %t [FreeShort %d%%N %d%%N]", c.NT, strings.Join(prov, ";"), res.Complete, sum.acq, sum.rel)
+		return res
 	}
 	res.Coq = fmt.Sprintf("mkCase @ID@%%N %d [%s] %t [Free %d%%N %d%%N %d%%N]", c.NT, strings.Join(prov, ";"), res.Complete, sum.acq, sum.rel, sum.maxIn)
 	return res
@@ -351,6 +550,38 @@ func freeCase(prop string, seed uint64, i int, thorough bool) Case {
 		}
 	}
 	f.Rounds = total / len(f.G)
+	c.Free = f
+	return c
+}
+
+// raceCase draws the parameters of the i-th renewal-race case (free-running, very short lease)
+func raceCase(prop string, seed uint64, i int, thorough bool) Case {
+	r := prng.New(seed, prop+"-race", uint64(i))
+	c := Case{Prop: prop, SSeed: r.U64(), Ops: []Op{}}
+	keys := r.Range(2, 6)
+	nl := keys + r.Intn(3) // some lock names have two Lockers contending
+	np := r.Range(1, 2)
+	for l := 0; l < nl; l++ {
+		c.Prov = append(c.Prov, r.Intn(np))
+	}
+	f := &Free{Keys: keys, Mix: 0}
+	for l := 0; l < nl; l++ {
+		f.G = append(f.G, l)
+	}
+	if r.Chance(1, 3) {
+		f.G = append(f.G, r.Intn(nl)) // a goroutine sharing a Locker
+	}
+	c.NT = len(f.G)
+	f.Procs = len(f.G) + 2 + r.Intn(3) // the holders spin while they wait: the timer goroutines need processors of their own
+	if f.Procs > 16 {
+		f.Procs = 16
+	}
+	f.LeaseMs = []int{6, 10, 16, 24}[r.Intn(4)]
+	f.DurMs = 400
+	if thorough {
+		f.DurMs = 1200
+	}
+	f.Rounds = 100000
 	c.Free = f
 	return c
 }
